@@ -103,7 +103,31 @@ def one_byte_at_marker(case):
 
 # ------------------------------------------------------------------ generation
 
+def gen_many(rng, i):
+    """many markers / many ranges: more than 20 pieces in the range vector (sorting and merging at scale)"""
+    n = rng.randrange(120, 600)
+    data = bytes(rng.randrange(256) for _ in range(n))
+    excl = rng.random() < 0.8
+    ranges = []
+    if excl:
+        pos = sorted(rng.sample(range(0, n - 2, 3), rng.randrange(8, 36)))
+        for o in pos:
+            ranges.append([o, 1, o])
+        for _ in range(rng.randrange(0, 8)):
+            s = rng.randrange(0, n)
+            ranges.append([s, rng.randrange(0, min(9, n - s + 1)), None])
+    else:
+        for _ in range(rng.randrange(12, 40)):
+            s = rng.randrange(0, n)
+            l = rng.randrange(0, min(12, n - s + 1))
+            ranges.append([s, l, rng.choice([None, None, rng.randrange(0, 1 << 33)])])
+    rng.shuffle(ranges)
+    return {"id": i, "data": data.hex(), "ranges": ranges, "excl": excl, "alg": "sha256", "buf": rng.choice([1, 5, 64, n])}
+
+
 def gen_case(rng, i, malformed=False):
+    if not malformed and rng.random() < 0.08:
+        return gen_many(rng, i)
     r = rng.random()
     n = rng.choice([1, 2, 3, 5, 8, 9, 16, 17, 31, 64]) if r < 0.55 else (rng.randrange(0, 300) if r < 0.9 else rng.randrange(300, 4097))
     if rng.random() < 0.02:
